@@ -54,73 +54,61 @@ Qed.
 (* what save_doc does to an object root, by cases on the plugins entry *)
 Lemma save_doc_obj_none c kvs : lookup "plugins" kvs = None ->
   save_doc c (JObj kvs) =
-  JObj (insert "plugins" (JObj (insert "typegen" (typegen_json c) [])) (insert "plugins" (JObj []) kvs)).
+  Some (JObj (insert "plugins" (JObj (insert "typegen" (typegen_json c) [])) (insert "plugins" (JObj []) kvs))).
 Proof. intros E. unfold save_doc. rewrite E. rewrite lookup_insert_same. reflexivity. Qed.
 
 Lemma save_doc_obj_obj c kvs p : lookup "plugins" kvs = Some (JObj p) ->
-  save_doc c (JObj kvs) = JObj (insert "plugins" (JObj (insert "typegen" (typegen_json c) p)) kvs).
+  save_doc c (JObj kvs) = Some (JObj (insert "plugins" (JObj (insert "typegen" (typegen_json c) p)) kvs)).
 Proof. intros E. unfold save_doc. rewrite E. rewrite E. reflexivity. Qed.
 
-Lemma save_doc_obj_other c kvs v : lookup "plugins" kvs = Some v ->
-  (forall p, v <> JObj p) -> save_doc c (JObj kvs) = JObj kvs.
-Proof. intros E Hv. unfold save_doc. rewrite E. rewrite E. destruct v; try reflexivity. exfalso. eapply Hv. reflexivity. Qed.
-
-Lemma save_doc_nonobj c d : (forall kvs, d <> JObj kvs) ->
-  save_doc c d = JObj [("plugins", JObj [("typegen", typegen_json c)])].
-Proof. intros H. destruct d; try reflexivity. exfalso. eapply H. reflexivity. Qed.
-
-(* preservation for an object root (no hypothesis on plugins) *)
-Lemma preserve_obj c kvs q : outside_shape q -> get q (save_doc c (JObj kvs)) = get q (JObj kvs).
+(* C19_save_refused: the save is refused exactly on the documents that are not saveable *)
+Theorem save_refused_iff c doc : save_doc c doc = None <-> saveable doc = false.
 Proof.
-  intros Hq. destruct (lookup "plugins" kvs) as [pl|] eqn:El.
-  - destruct pl as [| | | |l|p];
-      try (rewrite (save_doc_obj_other c kvs _ El) by (intros p0; discriminate); reflexivity).
-    rewrite (save_doc_obj_obj c kvs p El).
-    inversion Hq as [i q'|k q' Hk|i q'|k q' Hk]; subst.
-    + reflexivity.
-    + rewrite !get_key. rewrite lookup_insert_other by exact Hk. reflexivity.
-    + rewrite !get_key. rewrite lookup_insert_same, El. reflexivity.
-    + rewrite !get_key. rewrite lookup_insert_same, El. rewrite !get_key.
-      rewrite lookup_insert_other by exact Hk. reflexivity.
-  - rewrite (save_doc_obj_none c kvs El).
-    inversion Hq as [i q'|k q' Hk|i q'|k q' Hk]; subst.
+  destruct doc as [| b | n | s | l | kvs]; try (split; reflexivity).
+  unfold saveable. destruct (lookup "plugins" kvs) as [pl|] eqn:El.
+  - destruct pl as [| | | |l|p]; unfold save_doc; rewrite El; rewrite El; split; try reflexivity; discriminate.
+  - rewrite (save_doc_obj_none c kvs El). split; discriminate.
+Qed.
+
+Lemma save_doc_some c doc doc' : save_doc c doc = Some doc' ->
+  exists kvs, doc = JObj kvs /\
+    ((lookup "plugins" kvs = None /\
+      doc' = JObj (insert "plugins" (JObj (insert "typegen" (typegen_json c) [])) (insert "plugins" (JObj []) kvs)))
+     \/ exists p, lookup "plugins" kvs = Some (JObj p) /\
+          doc' = JObj (insert "plugins" (JObj (insert "typegen" (typegen_json c) p)) kvs)).
+Proof.
+  intros H. destruct doc as [| b | n | s | l | kvs]; try discriminate. exists kvs. split; [reflexivity|].
+  destruct (lookup "plugins" kvs) as [pl|] eqn:El.
+  - destruct pl as [| | | |l|p]; try (unfold save_doc in H; rewrite El in H; rewrite El in H; discriminate).
+    right. exists p. split; [reflexivity|]. rewrite (save_doc_obj_obj c kvs p El) in H. congruence.
+  - left. split; [reflexivity|]. rewrite (save_doc_obj_none c kvs El) in H. congruence.
+Qed.
+
+(* C19_preserve *)
+Theorem preserve c doc doc' q : save_doc c doc = Some doc' -> outside_section q = true ->
+  get q doc' = get q doc.
+Proof.
+  intros Hs Hq. apply outside_section_shape in Hq.
+  destruct (save_doc_some c doc doc' Hs) as (kvs & -> & [[El ->]|(p & El & ->)]).
+  - inversion Hq as [i q'|k q' Hk|i q'|k q' Hk]; subst.
     + reflexivity.
     + rewrite !get_key. rewrite !lookup_insert_other by exact Hk. reflexivity.
     + rewrite !get_key. rewrite lookup_insert_same, El. reflexivity.
     + rewrite !get_key. rewrite lookup_insert_same, El. rewrite get_key.
       rewrite lookup_insert_other by exact Hk. reflexivity.
+  - inversion Hq as [i q'|k q' Hk|i q'|k q' Hk]; subst.
+    + reflexivity.
+    + rewrite !get_key. rewrite lookup_insert_other by exact Hk. reflexivity.
+    + rewrite !get_key. rewrite lookup_insert_same, El. reflexivity.
+    + rewrite !get_key. rewrite lookup_insert_same, El. rewrite !get_key.
+      rewrite lookup_insert_other by exact Hk. reflexivity.
 Qed.
 
-(* C19_preserve *)
-Theorem preserve c doc q : kf_root_array doc = false -> outside_section q = true ->
-  get q (save_doc c doc) = get q doc.
+Lemma save_writes c doc doc' : save_doc c doc = Some doc' -> get P doc' = Some (typegen_json c).
 Proof.
-  intros Hr Hq. apply outside_section_shape in Hq.
-  destruct doc as [| b | n | s | l | kvs]; try apply preserve_obj; try exact Hq.
-  all: rewrite save_doc_nonobj by (intros kvs0; discriminate).
-  all: inversion Hq as [i q'|k q' Hk|i q'|k q' Hk]; subst; try reflexivity.
-  all: try (rewrite get_key; cbn [lookup]; destruct (String.eqb_spec k "plugins") as [E|_]; [contradiction|reflexivity]).
-  all: try (rewrite get_key; cbn [lookup]; rewrite String.eqb_refl; rewrite get_key; cbn [lookup];
-            destruct (String.eqb_spec k "typegen") as [E|_]; [contradiction|reflexivity]).
-  (* root array: only the empty one is outside the class *)
-  all: destruct l; [|discriminate]; cbn [get]; destruct i; reflexivity.
-Qed.
-
-Lemma preserve_refuted : exists c doc q,
-  kf_root_array doc = true /\ outside_section q = true /\ get q (save_doc c doc) <> get q doc.
-Proof. exists dflt, (JArr [JNum "1"]), [PIdx 0]. repeat split; try reflexivity. discriminate. Qed.
-
-(* the section is written whenever plugins is absent or an object (any root) *)
-Lemma save_writes c doc : kf_plugins_not_object doc = false -> get P (save_doc c doc) = Some (typegen_json c).
-Proof.
-  intros Hk. unfold P. destruct doc as [| b | n | s | l | kvs];
-    try (rewrite save_doc_nonobj by (intros kvs0; discriminate); reflexivity).
-  unfold kf_plugins_not_object in Hk.
-  destruct (lookup "plugins" kvs) as [pl|] eqn:El.
-  - destruct pl; try discriminate. rewrite (save_doc_obj_obj c kvs _ El).
-    rewrite get_key, lookup_insert_same, get_key, lookup_insert_same. reflexivity.
-  - rewrite (save_doc_obj_none c kvs El).
-    rewrite get_key, lookup_insert_same, get_key, lookup_insert_same. reflexivity.
+  intros Hs. unfold P.
+  destruct (save_doc_some c doc doc' Hs) as (kvs & -> & [[El ->]|(p & El & ->)]);
+    rewrite get_key, lookup_insert_same, get_key, lookup_insert_same; reflexivity.
 Qed.
 
 Lemma all_strs_map l : all_strs (map JStr l) = Some l.
@@ -129,19 +117,9 @@ Lemma all_str_vals_map l :
   all_str_vals (map (fun kv : string * string => (fst kv, JStr (snd kv))) l) = Some l.
 Proof. induction l as [|[k v] l IH]; cbn [map all_str_vals fst snd]; [reflexivity|]. rewrite IH. reflexivity. Qed.
 
-Lemma kf_case_dropped_false c : kf_case_dropped c = false ->
-  default_parameter_case c = "camelCase" /\ default_field_case c = "snake_case".
+Lemma config_of_section_typegen c : config_of_section (typegen_json c) = normalise c.
 Proof.
-  unfold kf_case_dropped. intros H. apply orb_false_iff in H. destruct H as [H1 H2].
-  apply negb_false_iff in H1. apply negb_false_iff in H2.
-  apply String.eqb_eq in H1. apply String.eqb_eq in H2. split; assumption.
-Qed.
-
-Lemma config_of_section_typegen c : kf_case_dropped c = false ->
-  config_of_section (typegen_json c) = normalise c.
-Proof.
-  intros Hk. apply kf_case_dropped_false in Hk. destruct Hk as [Hp Hf].
-  destruct c as [pp op vl vb vd ip tm ep ipat pc fc fo]. cbn in Hp, Hf. subst pc fc.
+  destruct c as [pp op vl vb vd ip tm ep ipat pc fc fo].
   unfold config_of_section, normalise, typegen_json. cbn.
   f_equal.
   - destruct tm; cbn; [apply all_str_vals_map|reflexivity].
@@ -149,75 +127,10 @@ Proof.
   - destruct ipat; cbn; [apply all_strs_map|reflexivity].
 Qed.
 
-(* C19_roundtrip *)
-Theorem roundtrip c doc : kf_plugins_not_object doc = false -> kf_case_dropped c = false ->
-  load_doc (save_doc c doc) = Some (normalise c).
+(* C19_roundtrip: every settings value, the two naming conventions included *)
+Theorem roundtrip c doc doc' : save_doc c doc = Some doc' -> load_doc doc' = Some (normalise c).
 Proof.
-  intros Hd Hc. unfold load_doc. rewrite (save_writes c doc Hd). rewrite (config_of_section_typegen c Hc). reflexivity.
-Qed.
-
-Lemma roundtrip_refuted_plugins : exists c doc,
-  kf_plugins_not_object doc = true /\ kf_case_dropped c = false /\ load_doc (save_doc c doc) = None
-  /\ save_doc c doc = doc.
-Proof. exists dflt, (JObj [("plugins", JArr [])]). repeat split; reflexivity. Qed.
-
-Lemma roundtrip_refuted_case : exists c doc,
-  kf_plugins_not_object doc = false /\ kf_case_dropped c = true /\
-  load_doc (save_doc c doc) <> Some (normalise c).
-Proof.
-  exists {| project_path := "p"; output_path := "o"; validation_library := "none"; verbose := None;
-            visualize_deps := None; include_private := None; type_mappings := None; exclude_patterns := None;
-            include_patterns := None; default_parameter_case := "snake_case"; default_field_case := "snake_case";
-            force := None |}, (JObj []).
-  repeat split; try reflexivity. cbv. discriminate.
-Qed.
-
-(* ---------------------------------------------------------------- json_eqb decides equality *)
-Fixpoint json_size (j : json) : nat :=
-  match j with
-  | JArr l => S (fold_right (fun x a => json_size x + a) 0 l)
-  | JObj kvs => S (fold_right (fun kv a => json_size (snd kv) + a) 0 kvs)
-  | _ => 1
-  end.
-
-Lemma json_eqb_eq_sized n : forall a b, json_size a <= n -> json_eqb a b = true -> a = b.
-Proof.
-  induction n as [|n IH]; intros a b Hs He.
-  - destruct a; cbn in Hs; lia.
-  - destruct a as [| x | x | x | x | x]; destruct b as [| y | y | y | y | y]; try discriminate; cbn in He.
-    + reflexivity.
-    + apply Bool.eqb_prop in He. congruence.
-    + apply String.eqb_eq in He. congruence.
-    + apply String.eqb_eq in He. congruence.
-    + f_equal. cbn in Hs. apply le_S_n in Hs. revert y Hs He.
-      induction x as [|u r IHr]; intros y Hs He; destruct y as [|w s]; try discriminate; [reflexivity|].
-      apply andb_true_iff in He. destruct He as [H1 H2]. cbn in Hs.
-      f_equal; [apply IH; [lia|exact H1]|apply IHr; [lia|exact H2]].
-    + f_equal. cbn in Hs. apply le_S_n in Hs. revert y Hs He.
-      induction x as [|[k1 u] r IHr]; intros y Hs He; destruct y as [|[k2 w] s]; try discriminate; [reflexivity|].
-      apply andb_true_iff in He. destruct He as [H1 H2]. apply andb_true_iff in H1. destruct H1 as [H0 H1].
-      apply String.eqb_eq in H0. cbn in Hs.
-      f_equal; [f_equal; [exact H0|apply IH; [lia|exact H1]]|apply IHr; [lia|exact H2]].
-Qed.
-
-Lemma json_eqb_eq a b : json_eqb a b = true -> a = b.
-Proof. apply (json_eqb_eq_sized (json_size a)). apply le_n. Qed.
-
-(* preservation stated from the text's reference reading to the document written *)
-Theorem preserve_from_reference c dref dserde q :
-  kf_number_misread dref dserde = false -> kf_root_array dserde = false -> outside_section q = true ->
-  get q (save_doc c dserde) = get q dref.
-Proof.
-  intros Hm Hr Hq. unfold kf_number_misread in Hm. apply negb_false_iff in Hm.
-  apply json_eqb_eq in Hm. subst dserde. apply preserve; assumption.
-Qed.
-
-Lemma preserve_from_reference_refuted : exists c dref dserde q,
-  kf_number_misread dref dserde = true /\ kf_root_array dserde = false /\ outside_section q = true /\
-  get q (save_doc c dserde) <> get q dref.
-Proof.
-  exists dflt, (JObj [("a", JNum "f24798.800975902122")]), (JObj [("a", JNum "f24798.80097590212")]), [PKey "a"].
-  repeat split; try reflexivity. cbv. discriminate.
+  intros Hs. unfold load_doc. rewrite (save_writes c doc doc' Hs). rewrite (config_of_section_typegen c). reflexivity.
 Qed.
 
 (* ---------------------------------------------------------------- precedence *)
@@ -343,28 +256,30 @@ Proof.
 Qed.
 
 (* ---------------------------------------------------------------- init *)
-(* C19_init_reject_first: outside the class a refused init leaves every file alone *)
-Theorem init_reject_first f il : init_invalid f il = true -> kf_init_writes_first f il = false ->
-  run_init f il = RFail f.
+Lemma init_invalid_validate f il : init_invalid f il = true <-> validate f (init_config il) <> None.
 Proof.
-  intros Hi Hk. unfold kf_init_writes_first in Hk. rewrite Hi in Hk. cbn in Hk. unfold run_init.
-  destruct (fs_get f (init_target il)) as [[| |[d|]|o]|]; try reflexivity. discriminate.
+  unfold init_invalid, validate, init_config. cbn [validation_library project_path].
+  destruct (lib_ok (init_lib il)); cbn; [|split; [discriminate|reflexivity]].
+  destruct (fs_exists f (init_project il)); cbn; split; intros H; try discriminate; try reflexivity.
+  exfalso. apply H. reflexivity.
 Qed.
 
-Lemma init_reject_first_refuted : exists f il e f',
-  init_invalid f il = true /\ kf_init_writes_first f il = true /\
-  run_init f il = RReject e f' /\ f' <> f /\
-  fs_get f' (init_target il) = Some (NDoc (Some (save_doc (init_config il) (JObj [("a", JNum "1")])))).
+(* C19_init_reject_first: invalid settings are refused and every file is left alone *)
+Theorem init_reject_first f il : init_invalid f il = true -> exists e, run_init f il = RReject e f.
 Proof.
-  exists [("src-tauri", NProj); ("src-tauri/tauri.conf.json", NDoc (Some (JObj [("a", JNum "1")])))],
-         {| i_project := None; i_generated := None; i_output := None; i_validation := Some "foo";
-            i_verbose := false; i_visualize := false |}.
-  eexists. eexists. split; [reflexivity|]. split; [reflexivity|]. split; [reflexivity|].
-  split; [discriminate|reflexivity].
+  intros Hi. apply init_invalid_validate in Hi. unfold run_init.
+  destruct (validate f (init_config il)) as [e|]; [exists e; reflexivity|]. exfalso. apply Hi. reflexivity.
 Qed.
 
-(* what init does to its target when the document is readable: exactly save_doc, so
-   preserve and roundtrip apply to the document left behind *)
+(* a target the settings cannot be written into: error, every file left alone *)
+Theorem init_unsaveable f il d :
+  fs_get f (init_target il) = Some (NDoc (Some d)) -> saveable d = false ->
+  run_init f il = RFail f \/ exists e, run_init f il = RReject e f.
+Proof.
+  intros Hg Hs. unfold run_init. destruct (validate f (init_config il)) as [e|]; [right; exists e; reflexivity|].
+  left. rewrite Hg. apply (save_refused_iff (init_config il)) in Hs. rewrite Hs. reflexivity.
+Qed.
+
 Definition result_fs (r : result) : fs :=
   match r with RReject _ f | RFail f | RNoCommands _ f | RRun _ f => f end.
 
@@ -373,15 +288,21 @@ Proof. unfold fs_get, fs_put. apply lookup_insert_same. Qed.
 Lemma fs_get_put_other f p p' n : norm p' <> norm p -> fs_get (fs_put f p n) p' = fs_get f p'.
 Proof. intros H. unfold fs_get, fs_put. apply lookup_insert_other. exact H. Qed.
 
-Theorem init_document f il d :
+(* what a valid init leaves in its target is save_doc of what was there, so preserve and
+   roundtrip apply to the document left behind *)
+Theorem init_document f il d d' :
+  init_invalid f il = false ->
   fs_get f (init_target il) = Some (NDoc (Some d)) ->
+  save_doc (init_config il) d = Some d' ->
   norm (init_generated il) <> norm (init_target il) ->
-  fs_get (result_fs (run_init f il)) (init_target il) = Some (NDoc (Some (save_doc (init_config il) d))).
+  fs_get (result_fs (run_init f il)) (init_target il) = Some (NDoc (Some d')).
 Proof.
-  intros Hg Hn. unfold run_init. rewrite Hg.
-  set (f1 := fs_put f (init_target il) (NDoc (Some (save_doc (init_config il) d)))).
-  assert (fs_get f1 (init_target il) = Some (NDoc (Some (save_doc (init_config il) d)))) as H1
-    by apply fs_get_put_same.
+  intros Hi Hg Hs Hn. unfold run_init.
+  destruct (validate f (init_config il)) as [e|] eqn:Ev.
+  { assert (init_invalid f il = true) as Hc by (apply init_invalid_validate; congruence). congruence. }
+  rewrite Hg, Hs.
+  set (f1 := fs_put f (init_target il) (NDoc (Some d'))).
+  assert (fs_get f1 (init_target il) = Some (NDoc (Some d'))) as H1 by apply fs_get_put_same.
   unfold run_generate.
   set (c := apply_flags (init_flags il) (search f1 cands)).
   assert (output_path c = init_generated il) as Ho by reflexivity.
@@ -405,6 +326,6 @@ Proof.
     destruct ipat as [ipat|]; cbn; try rewrite Hs; reflexivity.
 Qed.
 
-Theorem oracle_roundtrip_model c doc : kf_plugins_not_object doc = false -> kf_case_dropped c = false ->
-  roundtrip_b c (load_doc (save_doc c doc)) = true.
-Proof. intros Hd Hc. rewrite (roundtrip c doc Hd Hc). apply config_eqb_refl. Qed.
+Theorem oracle_roundtrip_model c doc doc' : save_doc c doc = Some doc' ->
+  roundtrip_b c (load_doc doc') = true.
+Proof. intros Hs. rewrite (roundtrip c doc doc' Hs). apply config_eqb_refl. Qed.
